@@ -11,7 +11,7 @@ AUDIT_IMPORTS = ["HypatiaProofs.Properties.C19"]
 THEOREMS = ["Hyp.Concurrency." + t for t in (
     "c19_conflict_no_trace", "c19_both_visible_serial", "c19_mergeKey_cases", "c19_merge_is_serial",
     "c19_length_merge", "c19_write_skew_needs_rw")]
-CASES = {"quick": 160, "thorough": 6000}
+CASES = {"quick": 640, "thorough": 12000}
 BUDGET_S = {"quick": 50, "thorough": 800}
 BATCH = 10
 RULE = ("a committed base state (0-12 operations on a catalog with field, keyword, facet, Okapi-text and "
@@ -36,7 +36,121 @@ TECHNIQUE = "Lean 4 proof about the three-way-merge abstraction + two-connection
 c09 = importlib.import_module("props.c09")
 
 
+def cfgval(case, name, default):
+    for c in case.get("cfg", []):
+        if c[1] == name:
+            return c[2]
+    return default
+
+
+def gen_padded(rng, tier, idx):
+    """Larger catalogs in which the contended keys are NOT the first keys of their BTrees buckets (BTrees
+    refuses to merge a deleted first key, which hides every other interaction in tiny catalogs): a few
+    padding documents with the smallest docids, values, keywords, facets and word ids are indexed first
+    and never touched again.  Half of these cases are directed at representation thresholds: the base
+    leaves a keyword / value / facet / word posting one short of `thr` (or DICT_CUTOFF) members, one
+    transaction adds a member (crossing), the other changes the same posting without crossing
+    (remove one, add one) - found D20 on the unrepaired tree."""
+    thr = rng.choice([2, 3, 3, 4, 5])
+    cutoff = rng.choice([2, 3, 10])
+    npad = 3
+    nids = npad + rng.randrange(6, 12)
+    live = list(range(npad, nids))
+    rng.shuffle(live)
+    cut = rng.randrange(2, len(live) - 1)
+    ids_a, ids_b = live[:cut], live[cut:]
+    hot = [rng.choice([1, 2]), rng.choice([2, 4, 6]), rng.choice([1, 2, 4]), rng.choice([7, 13, 20, 27]),
+           rng.choice([7, 13, 20, 27])]
+    seeds = [rng.randrange(7, 60) for _ in range(2)]
+
+    def docspec():
+        r = rng.random()
+        if r < 0.6:
+            return list(hot)
+        return [rng.choice([1, 2, 3]), rng.choice([2, 4, 6, 8, 12]), rng.choice([1, 2, 4, 8]),
+                rng.choice(seeds + [hot[3]]), rng.choice(seeds + [hot[4]])]
+    k = [0]
+    cmds = []
+
+    def add(who, op, d, spec=None):
+        cmds.append([who, k[0], op, d] + (spec if spec is not None else []))
+        k[0] += 1
+    for d in range(npad):                       # padding: smallest keys everywhere
+        add("base", "index", d, [0, 1, 0, 1, 1])
+    directed = rng.random() < 0.5
+    if directed:
+        n_hot = rng.choice([thr - 1, thr - 1, cutoff - 1, thr, max(1, thr - 2)])
+        n_hot = max(1, min(n_hot, len(live) - 2))
+        # hot documents of the base come from both pools, at least one from each when possible
+        pool = [ids_b[0], ids_a[0]] + [d for d in live if d not in (ids_a[0], ids_b[0])]
+        for d in pool[:n_hot]:
+            add("base", "index", d, list(hot))
+        for _ in range(rng.randrange(0, 3)):
+            add("base", "index", rng.choice(live), docspec())
+    else:
+        for _ in range(rng.choice([2, 4, 6, 8, 12])):
+            d = rng.choice(live)
+            if rng.random() < 0.8:
+                add("base", rng.choice(["index", "reindex"]), d, docspec())
+            else:
+                add("base", "unindex", d)
+    cmds.append(["begin"])
+
+    def txn(who, pool, crossing):
+        out = []
+        if directed and crossing:
+            fresh = [d for d in pool]
+            rng.shuffle(fresh)
+            for d in fresh[:rng.choice([1, 1, 2])]:
+                out.append((who, "index", d, list(hot)))
+        elif directed:
+            d1, d2 = rng.sample(pool, 2) if len(pool) >= 2 else (pool[0], pool[0])
+            first = rng.choice(["unindex", "reindex-away"])
+            if first == "unindex":
+                out.append((who, "unindex", d1, None))
+            else:
+                out.append((who, "reindex", d1, [3, 8, 8, seeds[0], seeds[0]]))
+            if rng.random() < 0.8:
+                out.append((who, "index", d2, list(hot)))
+        else:
+            for _ in range(rng.randrange(1, 5)):
+                d = rng.choice(pool)
+                if rng.random() < 0.65:
+                    out.append((who, rng.choice(["index", "reindex"]), d, docspec()))
+                else:
+                    out.append((who, "unindex", d, None))
+        return out
+    a_cross = rng.random() < 0.5
+    a = txn("a", ids_a, a_cross)
+    b = txn("b", ids_b, not a_cross)
+    ia = ib = 0
+    while ia < len(a) or ib < len(b):
+        if ib >= len(b) or (ia < len(a) and rng.random() < 0.5):
+            add(*a[ia])
+            ia += 1
+        else:
+            add(*b[ib])
+            ib += 1
+    first = rng.choice(["a", "b"])
+    cmds.append(["commit", first])
+    cmds.append(["commit", "b" if first == "a" else "a"])
+    cmds.append(["check"])
+    r = rng.random()
+    if r < 0.25:
+        present = list(c09.ALL)
+    elif r < 0.85:
+        present = [rng.choice(c09.ALL)]
+    else:
+        present = sorted(rng.sample(list(c09.ALL), 2))
+    return {"session": "concurrency",
+            "cfg": [["cfg", "ids", nids], ["cfg", "cutoff", cutoff], ["cfg", "present"] + present,
+                    ["cfg", "thr", thr], ["cfg", "mode", "padded-directed" if directed else "padded"]],
+            "cmds": cmds}
+
+
 def gen(rng, tier, idx):
+    if rng.random() < 0.6:
+        return gen_padded(rng, tier, idx)
     nids = rng.randrange(4, 9)
     ids = list(range(nids))
     rng.shuffle(ids)
@@ -117,7 +231,7 @@ def impl_run(hyp, case):
     try:
         tm0 = transaction.TransactionManager()
         c0 = db.open(tm0)
-        c0.root()["cat"] = c09.make_catalog(cutoff, case["cfg"][2][2:])
+        c0.root()["cat"] = c09.make_catalog(cutoff, case["cfg"][2][2:], cfgval(case, "thr", 2))
         tm0.commit()
         tms = {}
         conns = {}
@@ -190,7 +304,7 @@ def post_model(hyp, case, mouts, iouts=None):
                 res.append("no-admissible-outcome " + key)
                 continue
             ks = [int(x) for x in pick[0][len(key):].split()]
-            cat = c09.make_catalog(cutoff, case["cfg"][2][2:])
+            cat = c09.make_catalog(cutoff, case["cfg"][2][2:], cfgval(case, "thr", 2))
             try:
                 for k in ks:
                     c09.apply_op(cat, ["op"] + list(ops[k][1:]))
@@ -200,6 +314,11 @@ def post_model(hyp, case, mouts, iouts=None):
         else:
             res.append(m)
     return res
+
+
+def keep_cmd(c):
+    """shrinking never drops the protocol skeleton (begin / the two commits / check)"""
+    return c[0] in ("begin", "commit", "check")
 
 
 def same(a, b):
@@ -215,10 +334,11 @@ def nontrivial(case, outs):
 
 
 def features(case, outs):
-    f = ["present:" + "+".join(case["cfg"][2][2:])]
+    f = ["present:" + "+".join(case["cfg"][2][2:]), "mode:%s" % cfgval(case, "mode", "small")]
     res = [o for c, o in zip(case["cmds"], outs) if c[0] == "commit"]
     f.append("present:%s outcomes:%s" % ("+".join(case["cfg"][2][2:]), "+".join(res)))
     f.append("outcomes:" + "+".join(res))
+    f.append("mode:%s outcomes:%s" % (cfgval(case, "mode", "small"), "+".join(res)))
     for c, o in zip(case["cmds"], outs):
         if c[0] in ("a", "b"):
             f.append("txn-op:" + c[2])
